@@ -13,7 +13,7 @@ TRUSTED = [
     "Coq 8.16.1 kernel/coqc; vm_compute evaluates the verified checker safe_check on each parsed program; theorems closed under the global context",
     "strict parser harness/cparse.py maps the emitted text to the modelled fragment (scalar const temporaries become cells of one pseudo-array)",
     "gcc/clang implement the fragment as modelled; stack exhaustion by large automatic arrays is a resource limit outside the property",
-    "signed left shifts in the wrapper (1 << 31, shifting negative values) are defined by gcc/clang; the sanitizer run excludes the shift checks",
+    "the wrapper shifts in the unsigned type of the word's width (F34); the sanitizer runs include the shift and signed-overflow checks; the narrowing conversions back to the signed word type are implementation-defined (modulo 2^W on gcc/clang)",
     "the library's predefined architectures (k_num = 1; Mini in the quick tier, Mnist/Tiny/Cifar10 in the thorough tier): the parsed "
     "text is compared with the proved generator model inside the kernel (streaming comparison gen_net_matchesN, proved sound: "
     "C11_safe_emitted); the Python mirror of the interpreter is additionally run for diagnostics",
@@ -143,6 +143,7 @@ def run(ck: Check):
         if len({tuple(v) for v in outs.values()}) > 1:
             ck.disagree("result depends on compiler / optimisation level", case, signature={"what": "opt-dependence"})
     stack_exhaustion_replay(ck)
+    scalar_frame_replay(ck)
     predefined_finish(ck, pending)
     return ck.finish()
 
@@ -228,6 +229,51 @@ def stack_exhaustion_replay(ck):
             ck.disagree("a compiled network with large intermediate buffers cannot be run (process killed or wrong result)",
                         {"inputs": n, "bytes_of_buffers": n * 8, "returncode": p.returncode}, observed=(p.stdout + p.stderr)[-300:],
                         signature={"what": "stack-exhaustion", "inputs": n})
+
+
+SCALAR_PROBE = r"""
+import sys, threading, numpy as np, torch
+from torchlogix.layers import LogicConv2d, GroupSum
+from torchlogix.compiled_model import CompiledLogicNet
+opt, kernels = int(sys.argv[1]), int(sys.argv[2])
+torch.manual_seed(0)
+conv = LogicConv2d(in_dim=28, device="cpu", channels=1, num_kernels=kernels, tree_depth=3, receptive_field_size=5, weight_init="random")
+m = torch.nn.Sequential(conv, torch.nn.Flatten(), GroupSum(kernels, device="cpu"))
+m.eval()
+net = CompiledLogicNet(m, num_bits=64)
+net.compile(opt_level=opt)
+x = np.random.RandomState(0).rand(2, 1, 28, 28) > 0.5
+with torch.no_grad():
+    yt = m(torch.tensor(x, dtype=torch.float32))
+res = {}
+threading.stack_size(512 * 1024)
+t = threading.Thread(target=lambda: res.update(y=net.forward(x)))
+t.start(); t.join()
+print("RESULT", bool("y" in res and torch.equal(res["y"].float(), yt)))
+"""
+
+
+def scalar_frame_replay(ck):
+    """Recorded finding F36: the convolution emitter gives every tree gate its own `const T conv_..._g<i>` scalar; at opt_level=0 each
+    scalar gets a stack slot, so the frame of logic_net grows with kernels x positions x gates although the declared buffers are
+    small; from -O1 the scalars live in registers.  Replayed in a child process from a thread with a 512 KiB stack: 10 kernels
+    (645 KB of scalars) at -O0 and at -O1, and 2 kernels at -O0 as the control."""
+    import subprocess
+    import sys
+    env = dict(os.environ, OMP_NUM_THREADS="1")
+    for opt, kernels, must_work in ((0, 2, True), (1, 10, True), (0, 10, False)):
+        ck.case({"kind": "scalar-frame", "opt": opt, "kernels": kernels, "scalars_bytes": kernels * 576 * 14 * 8}, kind="stack-replay")
+        p = subprocess.run([sys.executable, "-W", "ignore", "-c", SCALAR_PROBE, str(opt), str(kernels)], capture_output=True, text=True,
+                           env=env, timeout=900)
+        ok = p.returncode == 0 and "RESULT True" in p.stdout
+        if must_work and not ok:
+            ck.disagree("a small compiled convolution cannot be run from a thread with a 512 KiB stack",
+                        {"opt": opt, "kernels": kernels, "returncode": p.returncode}, observed=(p.stdout + p.stderr)[-300:],
+                        signature={"what": "scalar-frame-control", "opt": opt})
+        if not must_work and p.returncode < 0:
+            ck.disagree("the same model and input crash at opt_level=0 and work at opt_level=1 (stack frame of the per-gate scalars)",
+                        {"opt": opt, "kernels": kernels, "signal": -p.returncode, "scalars_bytes": kernels * 576 * 14 * 8},
+                        signature={"what": "scalar-frame-O0"})
 
 
 def replay(ck, path):
